@@ -1321,6 +1321,10 @@ class FuncEmitter:
                     if A[1] != b:
                         abort('splice from a different list', e)
                     return '%s_splice(%s, &%s, %s, %s)' % (m.name, P, b, A[0], A[2])
+                if name == 'splice' and len(A) == 4:
+                    if A[1] != b:
+                        abort('splice from a different list', e)
+                    return '%s_splice_range(%s, &%s, %s, %s, %s)' % (m.name, P, b, A[0], A[2], A[3])
                 if name == 'erase' and len(A) == 1:
                     return '%s_erase(%s, &%s, %s)' % (m.name, P, b, A[0])
                 if name == 'erase' and len(A) == 2:
